@@ -23,6 +23,7 @@ upwards the exceptional postcondition is `PanicOnly (Led Z)`: the invariant hold
 claimed after a `ub` / `assert` marker — and nothing can be: `dropQueued`, leaving with `ub` in the middle of its loop, has
 destroyed a prefix of the queue and not yet cleared it (`dropQueued_marker_breaks_ledger`). -/
 namespace Evenio
+namespace EvLedger
 
 /-! ## accounting -/
 
@@ -650,4 +651,5 @@ theorem flush_led (fuel : Nat) : Hoare (Led Z) (flush fuel) (fun _ => Led Z) (Pa
   flushWith_led (fun it _ => Hoare.post (deliverOne_led it) (fun _ _ h => h) (fun _ _ h _ => h)) fuel
 
 
+end EvLedger
 end Evenio
